@@ -950,7 +950,7 @@ func TestVerif_C05_Strings(t *testing.T) {
 		htype uint8
 		n     int
 	}
-	// thorough: the 4-byte sweep (4.3e9 strings per entry point) is run at the five entry points where a
+	// thorough: the 4-byte sweep (4.3e9 strings per entry point) is run at the four entry points where a
 	// 4-byte string can get past the first length checks; everywhere else the bound stays 3
 	n4 := func(is4 bool) int {
 		if is4 {
@@ -975,10 +975,10 @@ func TestVerif_C05_Strings(t *testing.T) {
 	for _, f := range bgpgen.Families() {
 		// NLRI decoders take the options but look at them only for the internal prefix-SID-present flag,
 		// which cannot be set from outside: one option set
-		jobs = append(jobs, job{c05NLRI, opt0, f, 0, n4(f == bgp.RF_IPv4_UC || f == bgp.RF_FS_IPv4_UC)})
+		jobs = append(jobs, job{c05NLRI, opt0, f, 0, n4(f == bgp.RF_FS_IPv4_UC)})
 	}
 	r.Bounds["entry_point_jobs"] = len(jobs)
-	r.Extra["four_byte_sweeps(thorough)"] = "ParseBGPBody(UPDATE, first option set), DecodeCapability, attribute decode (first option set), NLRIFromSlice ipv4-unicast and ipv4-flowspec; every other entry point: 3"
+	r.Extra["four_byte_sweeps(thorough)"] = "ParseBGPBody(UPDATE, first option set), DecodeCapability, attribute decode (first option set), NLRIFromSlice ipv4-flowspec; every other entry point: 3 (the 4-byte sweep of the ipv4-unicast / labelled NLRI decoders is part of C04)"
 	for _, j := range jobs {
 		c05Parallel(t, r, func(w, W int, c *vr.Report, slot *c05Slot) {
 			p := &c05Probe{r: c, entry: j.entry, o: j.o, fam: j.fam, htype: j.htype, slot: slot}
